@@ -2,10 +2,11 @@
 # seedbox.sh <box-name> <patch.diff> <command...>: run a command with a seeded change applied, inside a
 # private mount namespace in which copies of /repo and /verif replace the real ones (the real /repo is
 # never touched).  The box (/var/tmp/<box-name>) is kept for inspection; remove it when done.
-box=/var/tmp/$1; patch=$(readlink -f "$2"); shift 2
+box=/var/tmp/$1; patch=$(readlink -f "$2" 2>/dev/null || echo "$2"); shift 2
 mkdir -p $box
 rsync -a --delete --exclude target /repo/ $box/repo/
 rsync -a --delete --exclude work --exclude replays /verif/ $box/verif/
 git -C $box/repo checkout -q -- .
-git -C $box/repo apply --whitespace=nowarn "$patch" || exit 2
+# a patch named "none" runs the command on the unchanged tree (an isolated copy for parallel runs)
+[ "$(basename "$patch")" = "none" ] || git -C $box/repo apply --whitespace=nowarn "$patch" || exit 2
 exec unshare -m sh -c "mount --bind $box/repo /repo && mount --bind $box/verif /verif && cd /verif && $*"
